@@ -24,6 +24,7 @@ ENV = dict(os.environ, CARGO_NET_OFFLINE="true", CARGO_TERM_COLOR="never")
 ALLOWED_AXIOMS = {"propext", "Classical.choice", "Quot.sound"}
 
 import gen_ops  # noqa: E402
+import programs  # noqa: E402
 import props as PROPS  # noqa: E402
 
 
@@ -397,6 +398,20 @@ def main():
         except Broken as b:
             broken = broken or b
 
+    # --- program-level correspondence (generated crates compiled with the real proc-macros)
+    prog_stats = None
+    if cfg.get("programs") and harness_ok and driver_ok:
+        try:
+            pv, prog_stats = getattr(programs, cfg["programs"])(seed, tier)
+            for v in pv[:5]:
+                rec = {"property": prop, "tier": tier, "seed": seed, "profile": v.get("profile"), "op_line": None,
+                       "program_case": v, "impl_actual": v.get("impl"), "model_actual": v.get("model"),
+                       "broken": {"kind": "correspondence", "name": f"{prop} program-level correspondence ({v.get('kind')})"},
+                       "found_failing_input": bool(v.get("found", True))}
+                violations.append(rec)
+        except Exception as e:  # a crash of the program layer is a broken tie, not a pass
+            broken = broken or Broken("correspondence", "program-level correspondence crashed", repr(e))
+
     # --- classify diffs
     reported = set()
     for (p, line, a, b) in diffs:
@@ -452,7 +467,7 @@ def main():
         out_lines.append(f"KNOWN-FINDING: property={prop} {f['what']}")
     for rec in violations:
         path = write_replay(prop, rec)
-        out_lines.append(f"VIOLATION property={prop} replay={path}")
+        out_lines.append(f"VIOLATION property={prop} replay={path}" + ("" if rec.get("found_failing_input", True) else " no-failing-input-found"))
         rc = 1
     if broken:
         if violations:
@@ -494,6 +509,7 @@ def main():
             "disagreements": len(diffs), "known_findings_confirmed": [f["id"] for f in known_hits],
             "exhaustive": bool(cfg.get("exhaustive", False)),
             "explanation": cfg.get("explanation", ""),
+            "programs": prog_stats,
         },
         "assumptions": cfg.get("assumptions", []),
         "wall_s": round(time.time() - t0, 2),
